@@ -3826,6 +3826,10 @@ async fn main() -> anyhow::Result<()> {
         engine_config.flush_interval
     };
 
+    // Under the periodic fsync policy the WAL writer only syncs when a LATER append finds the
+    // interval elapsed: on an idle engine an acknowledged write would stay un-synced forever.
+    let periodic_wal_sync = matches!(fsync_policy, FsyncPolicy::Periodic(_));
+
     tokio::spawn(async move {
         let mut interval = tokio::time::interval(flush_interval);
         info!(
@@ -3836,6 +3840,11 @@ async fn main() -> anyhow::Result<()> {
         loop {
             tokio::select! {
                 _ = interval.tick() => {
+                    if periodic_wal_sync {
+                        if let Err(e) = engine_for_flush.cold_tier().sync_wal() {
+                            error!(error = %e, "Periodic WAL sync failed");
+                        }
+                    }
                     match engine_for_flush.flush_hot_tier(false) {
                         Ok(count) if count > 0 => {
                             info!(docs_flushed = count, "Background flush completed");
